@@ -241,7 +241,8 @@ def _dynamic_extract(rot, dis):
     import inspect
     orig_rot, orig_dih = rot._rotamers, rot.dihedral_angles
     core = inspect.signature(orig_rot).parameters['buffer_width'].default
-    base = np.array([[30.0], [250.0], [135.5]])
+    # interior probes and the seam: 0, 100, 180, 359.5 (the clamp value), next to 0
+    base = np.array([[30.0], [250.0], [135.5], [0.0], [100.0], [180.0], [359.5], [0.25], [99.75], [100.25]])
     rec = []
 
     def fake_dih(traj, kind):
@@ -252,7 +253,8 @@ def _dynamic_extract(rot, dis):
         rec.append((np.array(angles, dtype=float).ravel().copy(), [x for x in hard_boundaries], bw))
         return np.zeros(len(angles), dtype='int16')
 
-    out = {'sets': {}, 'buffers': {'core': core}, 'shift': {}, 'extra_sets': [], 'unresolved_call_sites': []}
+    out = {'sets': {}, 'buffers': {'core': core}, 'shift': {}, 'extra_sets': [], 'unresolved_call_sites': [],
+           'seam_out_of_range': []}
     rot._rotamers, rot.dihedral_angles = fake_rot, fake_dih
     try:
         for kind in ('phi', 'psi', 'chi'):
@@ -260,6 +262,10 @@ def _dynamic_extract(rot, dis):
             getattr(rot, '%s_rotamers' % kind)(None)              # default buffer_width
             if not rec:
                 raise RuntimeError('%s_rotamers did not call _rotamers' % kind)
+            for r in rec:                                       # what the wrapper hands over at the seam
+                for a0, a1 in zip(base[:, 0], r[0]):
+                    if not (0 <= a1 < 360):
+                        out['seam_out_of_range'].append([kind, float(a0), float(a1)])
             hbs = {tuple(float(x) for x in r[1]) for r in rec}
             bws = {float(r[2]) for r in rec}
             shifts = {tuple(np.round((base[:, 0] - r[0]) % 360, 9)) for r in rec}
@@ -412,7 +418,8 @@ def translate(repo_dir, gen_dir):
             'sha256_disorder_py': info['sha_disorder'], 'rewritten': old != text,
             'static': bool(info.get('static')), 'static_agrees': info.get('static_agrees'),
             'fallback_reason': info.get('fallback_reason'),
-            'unresolved_call_sites': info.get('unresolved_call_sites', [])}
+            'unresolved_call_sites': info.get('unresolved_call_sites', []),
+            'seam_out_of_range': info.get('seam_out_of_range', [])}
 
 
 # ----------------------------------------------------------------------------------------------
@@ -830,6 +837,143 @@ def helper_scope(ctx, sets):
 
 # wrappers -------------------------------------------------------------------------------------
 
+class _Recorder(object):
+    """pass-through stand-in for `rotamer._rotamers`: records the angles the wrapper hands over"""
+
+    def __init__(self, rot):
+        self.rot, self.orig, self.calls = rot, rot._rotamers, []
+
+    def __call__(self, angles, hard_boundaries, *a, **k):
+        self.calls.append((np.array(angles).copy(), [x for x in hard_boundaries]))
+        return self.orig(angles, hard_boundaries, *a, **k)
+
+    def __enter__(self):
+        self.rot._rotamers = self
+        return self
+
+    def __exit__(self, *exc):
+        self.rot._rotamers = self.orig
+        return False
+
+
+def model_shift(shift, a):
+    """Model.Rotamer.shiftAngle on exact numbers"""
+    x = a - shift
+    return x + 360 if x < 0 else x
+
+
+def seam_scope(ctx, sets, shifts, sseed, thorough):
+    """the wrappers' angle preparation at the seam: `dihedral_angles` is replaced by a synthetic one that
+    delivers EXACT degrees (values that land on 0/360, on a boundary or next to them after the wrapper's
+    shift), `_rotamers` by a recording pass-through.  Predicate: every angle handed to `_rotamers` lies in
+    [0, 360) and equals shiftAngle(shift, angle); the returned states are the automaton on those angles."""
+    from enspara.geometry import rotamer
+    rng = np.random.default_rng(sseed)
+    ident = {'sseed': int(sseed), 'thorough': bool(thorough)}
+    orig_dih = rotamer.dihedral_angles
+    reqs, pend = [], []
+    for kind, fn in (('phi', rotamer.phi_rotamers), ('psi', rotamer.psi_rotamers), ('chi', rotamer.chi_rotamers)):
+        hb = [F(v) for v in sets[kind]]
+        nbas = len(hb) - 1
+        s = F(shifts[kind])
+        seam = set()
+        for v in hb:                                        # dihedrals that land on 0/360 or a boundary after the shift
+            for off in (0, Q, -Q, 2 * Q, -2 * Q):
+                seam.add((v + s + off) % 360)
+        for k in range(-2, 3):
+            seam.add((s + 180 * k) % 360)
+        seam |= {Fraction(0), Q, Fraction(180), Fraction(719, 2), Fraction(359), Fraction(1437, 4)}
+        seam = sorted(a for a in seam if 0 <= a <= Fraction(719, 2))      # dihedral_angles delivers [0, 359.5]
+        for dtype in ('float32', 'float64'):
+            for bw in ([15, 0, 30.25] if not thorough else [15, 0, 30.25, 60, 0.25, 79.75]):
+                b = Fraction(bw)
+                if not (0 <= b < Fraction(360, nbas)):
+                    continue
+                ncol, nfr = (3, 14) if not thorough else (6, 30)
+                cols_by_call = []
+
+                def fake_dih(traj, which, _c=cols_by_call, _dt=dtype, _n=ncol, _f=nfr):
+                    cols = []
+                    for _ in range(_n):
+                        col = [seam[int(rng.integers(0, len(seam)))] if rng.random() < 0.7
+                               else Fraction(int(rng.integers(0, 1439)), 4) for _ in range(_f)]
+                        cols.append(col)
+                    _c.append(cols)
+                    arr = np.array([[float(cols[c][f]) for c in range(_n)] for f in range(_f)], dtype=_dt)
+                    return arr, np.zeros((_n, 4), dtype=int)
+                rotamer.dihedral_angles = fake_dih
+                err, rots = None, None
+                try:
+                    with _Recorder(rotamer) as rec:
+                        try:
+                            rots, inds, n_states = fn(None, buffer_width=bw)
+                        except Exception as e:  # noqa
+                            err = type(e).__name__
+                finally:
+                    rotamer.dihedral_angles = orig_dih
+                given = [col for call in cols_by_call for col in call]          # in column order of the wrapper
+                base = dict(ident, t='seam', kind=kind, dtype=dtype, b=rat(b), shift=num(s))
+                ctx.tag('seam:%s:%s' % (kind, dtype))
+                # (i) the angles handed to _rotamers, whatever happened afterwards
+                bad = None
+                for c, (passed, hb_used) in enumerate(rec.calls):
+                    if c >= len(given):
+                        break
+                    exp = [model_shift(s, a) for a in given[c]]
+                    got = [Fraction(float(x)) for x in passed]
+                    ctx.evaluations += 1
+                    for f, (g, e, a) in enumerate(zip(got, exp, given[c])):
+                        if not (0 <= g < 360):
+                            bad = ('%s_rotamers hands the angle %s to _rotamers for the dihedral %s degrees: outside '
+                                   '[0, 360)' % (kind, float(g), float(a)), c, f)
+                        elif g != e:
+                            bad = ('%s_rotamers hands %s to _rotamers for the dihedral %s degrees, expected %s'
+                                   % (kind, float(g), float(a), float(e)), c, f)
+                        if bad:
+                            break
+                    if bad:
+                        break
+                if bad:
+                    ctx.violation(bad[0], dict(base, column=bad[1], frame=bad[2], dihedrals=[rat(a) for a in given[bad[1]]]))
+                    continue
+                if err is not None:
+                    ctx.violation('%s_rotamers raised %s on dihedrals inside [0, 359.5]' % (kind, err), base)
+                    continue
+                if len(rec.calls) != len(given) or np.shape(rots) != (nfr, len(given)):
+                    ctx.violation('%s_rotamers: number of _rotamers calls / shape of the result does not match the '
+                                  'dihedrals' % kind, base)
+                    continue
+                # (ii) states = automaton on the shifted angles (columns touching a gate value: validity only)
+                gates = gate_values(hb, b)
+                for c in range(len(given)):
+                    exp = [model_shift(s, a) for a in given[c]]
+                    st = [int(x) for x in rots[:, c]]
+                    recd = dict(base, column=c, dihedrals=[rat(a) for a in given[c]], got=st)
+                    if any(x < 0 or x >= nbas for x in st):
+                        ctx.violation('%s_rotamers: invalid basin index in the result' % kind, recd)
+                        break
+                    if any(a in gates for a in exp):
+                        ctx.tag('seam-column-on-gate')
+                    else:
+                        pr = rot_problem(hb, b, exp, st)
+                        if pr is not None:
+                            ctx.violation('%s_rotamers at the seam: %s' % (kind, pr[0]), recd, key=pr[1])
+                            if pr[1] is None:
+                                break
+                    reqs.append({'op': 'C20.rotamers', 'angles': [rat(a) for a in exp], 'hb': [rat(v) for v in hb],
+                                 'b': rat(b)})
+                    pend.append((recd, st))
+    resp = ctx.driver(reqs)
+    badm = 0
+    for (recd, st), r in zip(pend, resp):
+        if r.get('ok') != st:
+            badm += 1
+            if badm <= 2:
+                ctx.disagreement('Model.Rotamer.rotamers (on shiftAngle of the dihedrals) vs %s_rotamers' % recd['kind'],
+                                 dict(recd, model=r))
+    ctx.note('seam_scope', {'columns': len(pend), 'model_mismatches': badm})
+
+
 def _stage_data_dir():
     import enspara
     return os.path.join(os.path.dirname(enspara.__file__), 'test', 'cards_data')
@@ -878,7 +1022,8 @@ def wrapper_scope(ctx, sets, shifts, wseed, thorough):
                 if not (0 <= b < Fraction(360, nbas)):
                     continue
                 try:
-                    rots, got_inds, n_states = fn(trj, buffer_width=bw)
+                    with _Recorder(rotamer) as wrec:
+                        rots, got_inds, n_states = fn(trj, buffer_width=bw)
                 except Exception as e:  # noqa
                     ctx.violation('%s_rotamers raised %s' % (kind, type(e).__name__),
                                   dict(ident, t='wrapper', traj=tname, kind=kind, b=rat(b)))
@@ -914,10 +1059,30 @@ def wrapper_scope(ctx, sets, shifts, wseed, thorough):
                     continue
                 angles = deg
                 gates = gate_values(hb, b)
+                if len(wrec.calls) != angles.shape[1]:
+                    ctx.violation('%s_rotamers: %d calls of _rotamers for %d dihedrals' % (kind, len(wrec.calls), angles.shape[1]),
+                                  dict(ident, t='wrapper', traj=tname, kind=kind, b=rat(b)))
+                    continue
                 for c in range(angles.shape[1]):
-                    col = [Fraction(float(x)) for x in angles[:, c]]
-                    if clamped[c] or any((a in gates) or not (0 <= a < 360) for a in col):
-                        ctx.skip('wrapper column with an angle on a gate value / above 359.5')
+                    # the wrapper's OWN angles (as handed to _rotamers), not a recomputation
+                    own = np.asarray(wrec.calls[c][0], dtype=float)
+                    col = [Fraction(float(x)) for x in own]
+                    if any(not (0 <= a < 360) for a in col):
+                        ctx.violation('%s_rotamers hands an angle outside [0, 360) to _rotamers for a dihedral in '
+                                      '[-180, 180]' % kind,
+                                      dict(ident, t='wrapper', traj=tname, kind=kind, column=c, b=rat(b),
+                                           angles=[rat(a) for a in col]))
+                        continue
+                    # they are the dihedrals of the reported atoms (mod 360, float32 accuracy; clamped columns aside)
+                    if not clamped[c]:
+                        diff = np.abs(((own - angles[:, c].astype(float)) + 180.0) % 360.0 - 180.0)
+                        if diff.max() > 1e-3:
+                            ctx.violation('%s_rotamers: the angles handed to _rotamers are not the (shifted) dihedrals of '
+                                          'the reported atoms' % kind,
+                                          dict(ident, t='wrapper', traj=tname, kind=kind, column=c, b=rat(b)))
+                            continue
+                    if any(a in gates for a in col):
+                        ctx.skip('wrapper column with an angle exactly on a gate value')
                         continue
                     st = [int(x) for x in rots[:, c]]
                     rec = dict(ident, t='wrapper', traj=tname, kind=kind, column=c, hb=[num(v) for v in hb],
@@ -1542,6 +1707,8 @@ def run(ctx):
 
     hist_scope(ctx, sets)
 
+    seam_scope(ctx, {k: sets[k] for k in ('phi', 'psi', 'chi')}, shifts, int(ctx.rng.integers(0, 2 ** 31)), ctx.thorough)
+
     wrapper_scope(ctx, sets, shifts, int(ctx.rng.integers(0, 2 ** 31)), ctx.thorough)
 
     # transitions
@@ -1578,6 +1745,9 @@ def replay(ctx, case):
     elif t == 'wrapper':
         info = _staged_info(ctx)
         wrapper_scope(ctx, info['sets'], info['shift'], case['wseed'], case['thorough'])
+    elif t == 'seam':
+        info = _staged_info(ctx)
+        seam_scope(ctx, {k: info['sets'][k] for k in ('phi', 'psi', 'chi')}, info['shift'], case['sseed'], case['thorough'])
     elif t == 'hist':
         c = {k: v for k, v in case.items() if k not in ('failing_step', 'got', 'model')}
         check_hist(ctx, c, run_hist(c), ctx.driver(hist_requests(c)))
